@@ -24,3 +24,6 @@ pub const MAX_IP_DEFRAG_LEN_U16: u16 = u16::MAX;
 
 /// Maximum length of a defragmented packet as [`usize`].
 pub const MAX_IP_DEFRAG_LEN: usize = MAX_IP_DEFRAG_LEN_U16 as usize;
+
+#[cfg(julianschmid_etherparse_verif)]
+pub(crate) mod verif_map;
